@@ -108,10 +108,10 @@ func request(f *corpus.File, param string) *pluginpb.CodeGeneratorRequest {
 }
 
 type fileStatus struct {
-	File     string `json:"file"`
-	Variant  string `json:"variant"`
-	GenError string `json:"gen_error,omitempty"` // plug-in reported an error / crashed
-	Compile  string `json:"compile_error,omitempty"`
+	File     string   `json:"file"`
+	Variant  string   `json:"variant"`
+	GenError string   `json:"gen_error,omitempty"` // plug-in reported an error / crashed
+	Compile  string   `json:"compile_error,omitempty"`
 	Outputs  []string `json:"outputs,omitempty"`
 }
 
@@ -119,9 +119,9 @@ type builtVariant struct {
 	V          Variant
 	Root       string
 	Driver     string
-	RaceDriver string // the same driver built with -race (only when requested)
-	OK     map[string]bool // corpus file base -> usable
-	Status []fileStatus
+	RaceDriver string          // the same driver built with -race (only when requested)
+	OK         map[string]bool // corpus file base -> usable
+	Status     []fileStatus
 }
 
 const goModTmpl = `module gencorpus
